@@ -223,6 +223,53 @@ pub fn run_child(ctx: &mut Ctx) {
         drop(mgr);
         let _ = std::fs::remove_dir_all(&dir); let _ = std::fs::remove_dir_all(&side);
     }
+    // ---- directed (C11): the file of a registered shard vanishes from the directory while the manager lives (the shard cache
+    // evicted it); a shard registered afterwards records the same chunks again (the session that could not find them stored them
+    // as new data); a lookup after that must find them in the new shard
+    for round in 0..(if maxidx < (1 << 20) { 0 } else if ctx.quick() { 6 } else { 40 }) {
+        let mut rng = ctx.rng.fork(98_000 + round);
+        let dir = tmp_root.join(format!("evict{round}"));
+        let side = tmp_root.join(format!("evict-side{round}"));
+        std::fs::create_dir_all(&dir).unwrap(); std::fs::create_dir_all(&side).unwrap();
+        let mgr = if round % 2 == 0 { rt.block_on(ShardFileManager::new_in_session_directory(&dir)).unwrap() } else { rt.block_on(ShardFileManager::new_in_cache_directory(&dir)).unwrap() };
+        let n1 = rng.range(1, 3) as usize;
+        let mut ga = gen_content(&mut rng, n1, 0, 0, false);
+        let mut seen = BTreeSet::new();
+        for c in ga.cas.iter_mut() { for ch in c.chunks.iter_mut() { while !seen.insert(ch.chunk_hash[0]) { ch.chunk_hash = rand_hash(&mut rng); } } }
+        let Some(x) = ga.cas.iter().find(|c| !c.chunks.is_empty()).cloned() else { continue; };
+        let q: Vec<MerkleHash> = x.chunks.iter().take(3).map(|c| c.chunk_hash).collect();
+        // the later shard: the same chunks under a new xorb (what the later session cut), next to unrelated content
+        let nb = rng.range(0, 2) as usize;
+        let mut gb = gen_content(&mut rng, nb, 0, 0, false);
+        for c in gb.cas.iter_mut() { for ch in c.chunks.iter_mut() { while !seen.insert(ch.chunk_hash[0]) { ch.chunk_hash = rand_hash(&mut rng); } } }
+        let mut y = x.clone(); y.metadata.cas_hash = rand_hash(&mut rng);
+        gb.cas.push(y);
+        let write = |g: &Gen| { let mut mem = MDBInMemoryShard::default(); for c in &g.cas { mem.add_cas_block(c.clone()).unwrap(); } mem.write_to_directory(&side).unwrap() };
+        let (pa, pb) = (write(&ga), write(&gb));
+        let dest_a = dir.join(pa.file_name().unwrap()); std::fs::copy(&pa, &dest_a).unwrap();
+        rt.block_on(mgr.register_shards_by_path(&[&dest_a])).unwrap();
+        let a0 = rt.block_on(mgr.chunk_hash_dedup_query(&q)).unwrap();
+        std::fs::remove_file(&dest_a).unwrap();
+        let _ = rt.block_on(mgr.chunk_hash_dedup_query(&q));          // what the later session asks before it stores the data again
+        let dest_b = dir.join(pb.file_name().unwrap()); std::fs::copy(&pb, &dest_b).unwrap();
+        rt.block_on(mgr.register_shards_by_path(&[&dest_b])).unwrap();
+        let a = rt.block_on(mgr.chunk_hash_dedup_query(&q));
+        let mut world: BTreeMap<MerkleHash, MDBCASInfo> = BTreeMap::new();
+        for c in ga.cas.iter().chain(gb.cas.iter()) { world.insert(c.metadata.cas_hash, c.clone()); }
+        let replay = format!("{{\"suite\":\"manager\",\"seed\":{},\"evict_round\":{round}}}", ctx.seed);
+        match a {
+            Ok(a) => {
+                if let Err(e) = truthful(&a, &q, &world, None) { ctx.fail("C05", "manager-untruthful", format!("shard manager dedup answer not truthful: {e} (directed eviction round {round})"), replay.clone()); }
+                if a.is_none() && a0.is_some() {
+                    ctx.fail("C11", "rerecorded-chunk-not-found-after-eviction", format!("chunks recorded by a registered shard whose file was then removed from the directory, and recorded again by a shard registered afterwards ({} xorbs), are not found by the live manager (round {round})", gb.cas.len()), replay.clone());
+                }
+            }
+            Err(e) => ctx.fail("C11", "lookup-error-after-eviction", format!("lookup fails after a registered shard's file was removed: {e} (round {round})"), replay.clone()),
+        }
+        ctx.stat(if a0.is_some() { "directed_eviction_rounds" } else { "directed_eviction_rounds_skipped" });
+        drop(mgr);
+        let _ = std::fs::remove_dir_all(&dir); let _ = std::fs::remove_dir_all(&side);
+    }
     // ---- a shard cache directory shared with another process (C11): a manager obtained again for the same directory sees the
     // shards that appeared there in the meantime (a later session of this process finds what another process uploaded)
     for round in 0..(if maxidx < (1 << 20) { 0 } else if ctx.quick() { 4 } else { 30 }) {   // (index cap out of play)
